@@ -777,9 +777,10 @@ pub fn run_type<T: Cat + DecodeAll + DecodeLimit>(ctx: &mut Ctx, stream: &str, n
 fn big_lengths<T>(thorough: bool) -> Vec<usize> {
 	let sz = core::mem::size_of::<T>();
 	let c = if sz == 0 { 50_000 } else { 16384 / sz };
-	let mut v = vec![c - 1, c, c + 1, 2 * c + 1];
+	// up to five chunks: growth strategies differ from the third or fourth chunk on
+	let mut v = vec![c - 1, c, c + 1, 2 * c + 1, 4 * c + 1, 5 * c];
 	if thorough {
-		v.extend_from_slice(&[2 * c - 1, 2 * c, 3 * c, 3 * c + 1]);
+		v.extend_from_slice(&[2 * c - 1, 2 * c, 3 * c, 3 * c + 1, 6 * c + 3, 9 * c]);
 	}
 	v
 }
@@ -1509,6 +1510,30 @@ impl Input for UnknownLenInput<'_> {
 	}
 }
 
+thread_local! {
+	static ZST_INPUT: std::cell::RefCell<(Vec<u8>, usize)> = std::cell::RefCell::new((vec![], 0));
+}
+/// An `Input` of size zero (its data lives in a thread-local): nothing in the decoder may depend
+/// on `size_of` of the input type.
+struct ZstInput;
+impl Input for ZstInput {
+	fn remaining_len(&mut self) -> Result<Option<usize>, parity_scale_codec::Error> {
+		Ok(None)
+	}
+	fn read(&mut self, into: &mut [u8]) -> Result<(), parity_scale_codec::Error> {
+		ZST_INPUT.with(|c| {
+			let mut c = c.borrow_mut();
+			let (data, pos) = &mut *c;
+			if into.len() > data.len() - *pos {
+				return Err("eof".into());
+			}
+			into.copy_from_slice(&data[*pos..*pos + into.len()]);
+			*pos += into.len();
+			Ok(())
+		})
+	}
+}
+
 fn alloc_case<T: Cat>(ctx: &mut Ctx, name: &str, bs: &[u8], depth_allowance: usize) {
 	// attribution of an abort: the request being executed
 	let hx = hex_or_dash(bs);
@@ -1517,7 +1542,8 @@ fn alloc_case<T: Cat>(ctx: &mut Ctx, name: &str, bs: &[u8], depth_allowance: usi
 	let bound_peak = depth_allowance * PREALLOC + MEM_PER_INPUT_BYTE * bs.len() + SLACK + core::mem::size_of::<T>();
 	#[cfg(feature = "bytes-f")]
 	let shared = bytes::Bytes::copy_from_slice(bs);
-	for input_kind in 0..4 {
+	ZST_INPUT.with(|c| *c.borrow_mut() = (bs.to_vec(), 0));
+	for input_kind in 0..5 {
 		#[cfg(not(feature = "bytes-f"))]
 		if input_kind == 3 {
 			continue;
@@ -1544,7 +1570,7 @@ fn alloc_case<T: Cat>(ctx: &mut Ctx, name: &str, bs: &[u8], depth_allowance: usi
 						T::decode(&mut u).is_ok()
 					}
 				},
-				_ => {
+				3 => {
 					#[cfg(feature = "bytes-f")]
 					{
 						parity_scale_codec::decode_from_bytes::<T>(shared.clone()).is_ok()
@@ -1554,9 +1580,10 @@ fn alloc_case<T: Cat>(ctx: &mut Ctx, name: &str, bs: &[u8], depth_allowance: usi
 						false
 					}
 				},
+				_ => T::decode(&mut ZstInput).is_ok(),
 			}))
 		});
-		let kind = ["slice", "unknown-length input", "io reader", "shared buffer"][input_kind];
+		let kind = ["slice", "unknown-length input", "io reader", "shared buffer", "zero-sized input type"][input_kind];
 		ctx.count("alloc:measured-decodes", 1);
 		if r.is_err() {
 			ctx.oracle_fail("C03", format!("{}: decoding {} panicked", name, hex_or_dash(&bs[..bs.len().min(40)])));
